@@ -3,9 +3,10 @@
     losslessness of a produced stream is decided per run by decoding it with
     the Coq specification decoder and the library decoder.  Proved here are
     the exact inverse theorems of the filter/integer layers (all inputs);
-    the range-coder theorems are in Properties_C01 as they are completed
-    (see RangeCoder.v). *)
-From XZ Require Import Base Bcj BcjProofs Xz VliProofs Bound.
+    and of the range coder (RcAbs/RcDec/RcEnc/RcRoundtrip.v): every bit
+    sequence, under every context-selection program, with the adaptive
+    probabilities, survives encode-then-decode. *)
+From XZ Require Import Base Bcj BcjProofs Xz VliProofs Bound Lzma RcAbs RcDec RcEnc RcRoundtrip.
 Local Open Scope N_scope.
 
 Theorem delta_filter_lossless : forall dist l, bytes_ok l -> delta_decode dist (delta_encode dist l) = l.
@@ -30,3 +31,49 @@ Proof.
   intros. split; [apply arm_length|]. apply stride_filters_length.
 Qed.
 Print Assumptions filters_preserve_length.
+
+(** Range coder.  [encode] is the transcription of rc_reset / rc_shift_low /
+    rc_encode / rc_flush (uint64 low, uint32 range, uint8 cache, pending-byte
+    counter; carry propagation), [dec_adaptive] the decoder side as Lzma.v
+    uses it (rc_init, rc_bit with the shared probability table, rc_direct1).
+    No hypothesis: adaptive probabilities stay inside [31, 2017] by themselves. *)
+Theorem range_coder_lossless : forall (sel : sel_t) (bs : list bool) (rest : list N),
+  let out := encode (enc_trace (adaptive sel) [] bs) in
+  exists r0 r' ps',
+    rc_init (out ++ rest) = Some r0 /\
+    dec_adaptive sel [] (length bs) r0 (PM.empty N) = (bs, r', ps') /\
+    rfail r' = false /\
+    let rz := rc_normalize r' in
+    rcode rz = 0 /\ rin rz = rest /\ rfail rz = false /\ rused rz = N.of_nat (length out).
+Proof. exact rc_roundtrip_adaptive. Qed.
+Print Assumptions range_coder_lossless.
+
+(** the same for arbitrary (non-adaptive) probabilities inside the legal range *)
+Theorem range_coder_lossless_any_probabilities : forall strat bs rest,
+  let ds := enc_trace strat [] bs in
+  Forall dec_ok ds ->
+  exists r0 r',
+    rc_init (encode ds ++ rest) = Some r0 /\
+    dec_run strat [] (length bs) r0 = (bs, r') /\
+    rfail r' = false /\
+    let rz := rc_normalize r' in
+    rcode rz = 0 /\ rin rz = rest /\ rfail rz = false /\ rused rz = N.of_nat (length (encode ds)).
+Proof. exact rc_roundtrip. Qed.
+Print Assumptions range_coder_lossless_any_probabilities.
+
+(** what the encoder writes: the big-endian digits of the exact (unbounded)
+    low value, first byte zero, one byte per normalisation plus five *)
+Theorem range_encoder_output : forall ds, Forall dec_ok ds ->
+  let f := afinal ds in encode ds = be_bytes (N.to_nat (aJ f) + 5) (aL f).
+Proof. exact encode_is_final_low. Qed.
+Print Assumptions range_encoder_output.
+
+Theorem probabilities_stay_in_range : forall p b, prob_ok p -> prob_ok (prob_update p b).
+Proof. exact prob_update_ok. Qed.
+Print Assumptions probabilities_stay_in_range.
+
+(* non-vacuity: a concrete run *)
+Example range_coder_example :
+  encode [DBit 1024 true; DBit 992 false; DDirect true; DBit 31 true; DBit 2017 false; DBit 1024 true]
+  = [0; 174; 128; 228; 0].
+Proof. vm_compute. reflexivity. Qed.
